@@ -112,7 +112,7 @@ def plan(tier):
         for p in range(256):
             shards.append({"kind": "graphs", "assignment": "four", "n": 4, "part": p, "parts": 256})
     shards.append({"kind": "badrefs"})
-    shards += H.plan_shards(['nested-revisions'])
+    shards += H.plan_shards(['nested-revisions', 'shared-arguments'])
     return shards
 
 
